@@ -13,7 +13,7 @@ RULE = (
     "corpus of past witnesses first; EXHAUSTIVE byte strings over the alphabet {00,01,02,04,05,06,07,08,ff,'R'} "
     "up to length 4 (quick) / 5 (thorough) after a valid greeting; structure-aware mutations of valid streams "
     "(every command truncated at every offset, every length field replaced by {0,len-1,len+1,255,2^16,2^31,"
-    "2^32-1,2^40,2^63,2^64-1}), 20 000 MORE frames in one read, hostile bytes before/inside the greeting, seeded "
+    "2^32-1,2^40,2^63,2^64-1}), every command name the ZMTP RFCs know (READY, ERROR, SUBSCRIBE, CANCEL, PING, PONG, HELLO, WELCOME, INITIATE, MESSAGE, near-misses) with 13 truncated / odd bodies each as short and long command frames, 20 000 MORE frames in one read, hostile bytes before/inside the greeting, seeded "
     "random bytes; socket level (world engine, every poll on a 2 MiB-stack thread): for each of the 8 socket types that read, 6 000 / 25 000 "
     "items the recv loop ignores (READY commands; bogus subscriptions for PUB/XPUB; non-matching topics for SUB) in ONE "
     "read followed by a valid message, then a healthy peer's message — no crash, both delivered; peer-state families: subscriptions of 0..1000 bytes (plain, cancelled, multi-frame, garbage) against published topics of 0..300 bytes on PUB/XPUB, ROUTER peers with identities of every legal length and sends to near-miss addresses, REP requests behind envelopes of up to 40 frames and their replies — state built from a peer's well-formed bytes must not make the application's own later call panic. Non-trivial: the implementation returned something other than 'none' (an item or an error). "
@@ -62,6 +62,21 @@ def mutations(rng):
             else:
                 b[off] = val & 0xFF
             out.append((zmtp.frame(bytes(b), command=True), "cmd-length-field"))
+    # every command NAME the ZMTP RFCs (23/3.0, 37/3.1, 25-27 mechanisms) know — a library that grows support for one
+    # of them gets a new parser path for peer bytes — each with every kind of truncated / odd body: nothing after the
+    # name, a lone length octet, a length octet promising more than follows, READY-style properties, long garbage;
+    # as short and as long command frames, and with a wrong name-length octet
+    known = [b"READY", b"ERROR", b"SUBSCRIBE", b"CANCEL", b"PING", b"PONG", b"HELLO", b"WELCOME", b"INITIATE", b"MESSAGE",
+             b"ready", b"error", b"READYX", b"ERRO"]
+    tails = [b"", b"\x00", b"\x01", b"\x03ab", b"\x09abc", b"\xff", b"\x00\x00", b"\x00\x00\x00\x00", b"\x0bSocket-Type", b"\x0bSocket-Type\x00\x00",
+             b"\x00\x01\x00\x00\x00\x00", b"\x05hello\x00\x00\x00\x05worl", b"x" * 300]
+    for name in known:
+        for tail in tails:
+            b = bytes([len(name)]) + name + tail
+            out.append((zmtp.frame(b, command=True), "known-command-odd-body"))
+            out.append((zmtp.frame(b, command=True, force_long=True), "known-command-odd-body"))
+        for wrong in (0, len(name) - 1, len(name) + 1, 255):
+            out.append((zmtp.frame(bytes([wrong & 0xFF]) + name, command=True), "known-command-odd-body"))
     # frame length fields
     for flags in [0x00, 0x01, 0x02, 0x03, 0x04, 0x05, 0x06, 0x07, 0x0A, 0xFE]:
         for ln in LENS + [1, 7, 8, 9]:
